@@ -82,6 +82,9 @@ def betaBinary1(therm : BinaryThermodynamics, x, T, Rcrit, matrix : MatrixParame
     beta = fa * Rcrit^2 * x * D / a**4
     '''
     x = np.atleast_1d(x)
+    #Composition can come in as (N,1) (ex. from computeSteadyStateNucleation), the terms below are all (N,)
+    if x.ndim > 1:
+        x = x[:,0]
     T = np.atleast_1d(T)
     Rcrit = np.atleast_1d(Rcrit)
     indices = Rcrit != 0
